@@ -331,3 +331,53 @@ Example C06_dst_indices_depend_on_the_zone :
   /\ feature_matrix zmean (map (fun d => map (fun _ => 0%Z) (d_rows d)) (firstn 3 w_denver)) ([], []) = Err ERagged
   /\ feature_matrix zmean (map (fun d => map (fun _ => 0%Z) (d_rows d)) w_phoenix) ([(1, 2)], []) = Err ERagged.
 Proof. vm_compute. repeat split; discriminate. Qed.
+
+(* ------------------------------------------------------------------ the guard of the hourly theorem is EXACT *)
+(* For every frame of 23/24/25-hour days (any transition hours) in which no day repeating hour 23 is directly followed
+   by a day skipping hour 0 (no_clash), outside the guard pattern_ok the modelled predict FAILS — whatever the
+   regression returns: a day that skips hour 23 makes correct_dst fail, a frame that ends on a day repeating hour 23
+   makes _transform_dst fail (known findings C06-F6 / C06-F7) ... *)
+Theorem C06_hourly_fails_outside_guard :
+  forall (V : Type) (mean2 : V -> V -> V) (feat : hour_stamp -> V) (regress : list (list V) -> list V),
+  (forall agg, length (regress agg) = 24 * length agg) ->
+  forall pol days pat, Forall2 (realises pol) days pat ->
+  forallb kind_ok pat = true -> no_clash pat = true -> pattern_ok pat = false ->
+  exists e, hourly_predict mean2 feat regress pol days = Err e.
+Proof. intros V. exact (@hourly_predict_fails_l V). Qed.
+Print Assumptions C06_hourly_fails_outside_guard.
+
+(* ... so that, together with C06_hourly_predict_index_partial, predict returns rows EXACTLY on the frames of the guard;
+   pattern_ok is (C06_pattern_ok_spelled_out) "no day skips hour 23 and the frame does not end on a day repeating hour 23" *)
+Theorem C06_hourly_guard_exact :
+  forall (V : Type) (mean2 : V -> V -> V) (feat : hour_stamp -> V) (regress : list (list V) -> list V),
+  (forall agg, length (regress agg) = 24 * length agg) ->
+  forall pol days pat, Forall2 (realises pol) days pat ->
+  forallb kind_ok pat = true -> no_clash pat = true -> StronglySorted Z.lt (index_of days) ->
+  ((exists rows, hourly_predict mean2 feat regress pol days = Ok rows) <-> pattern_ok pat = true).
+Proof. intros V. exact (@hourly_guard_exact_l V). Qed.
+Print Assumptions C06_hourly_guard_exact.
+
+(* for the code as it is now (D11 and D18 repaired): no condition on usage or on date labels is left *)
+Theorem C06_hourly_guard_exact_repaired :
+  forall (V : Type) (mean2 : V -> V -> V) (feat : hour_stamp -> V) (regress : list (list V) -> list V),
+  (forall agg, length (regress agg) = 24 * length agg) ->
+  forall days pat, Forall2 clock_only days pat ->
+  forallb kind_ok pat = true -> no_clash pat = true -> StronglySorted Z.lt (index_of days) ->
+  ((exists rows, hourly_predict mean2 feat regress repaired days = Ok rows) <-> pattern_ok pat = true).
+Proof. intros V. exact (@hourly_guard_exact_repaired_l V). Qed.
+Print Assumptions C06_hourly_guard_exact_repaired.
+
+Theorem C06_pattern_ok_spelled_out : forall pat, forallb kind_ok pat = true -> no_clash pat = true ->
+  pattern_ok pat = negb (has_short23 pat) && negb (ends_long23 pat).
+Proof. exact pattern_ok_char. Qed.
+Print Assumptions C06_pattern_ok_spelled_out.
+
+(* non-vacuity on both sides of the equivalence, and the one adjacency no_clash excludes (it fails too: the slicing
+   keeps the slot it should remove and the column assignment sees one value too many) *)
+Example C06_nonvacuous_guard_exact :
+  (forallb kind_ok ex_pat = true /\ no_clash ex_pat = true /\ pattern_ok ex_pat = true)
+  /\ (forallb kind_ok w_pat_short23 = true /\ no_clash w_pat_short23 = true /\ pattern_ok w_pat_short23 = false)
+  /\ (forallb kind_ok w_pat_long23 = true /\ no_clash w_pat_long23 = true /\ pattern_ok w_pat_long23 = false)
+  /\ (no_clash [Reg; Long 23; Short 0; Reg] = false
+      /\ outcome_of repaired (mk_days 0 true [] (map clock_hours [Reg; Long 23; Short 0; Reg])) = Err ELength).
+Proof. vm_compute. repeat split. Qed.
